@@ -22,10 +22,6 @@ impl M {
         }
         M { r, c, v }
     }
-    pub fn from_rows(rows: &[Vec<f64>]) -> M {
-        let c = rows.first().map(|x| x.len()).unwrap_or(0);
-        M { r: rows.len(), c, v: rows.iter().flatten().cloned().collect() }
-    }
     #[inline]
     pub fn at(&self, i: usize, j: usize) -> f64 {
         self.v[i * self.c + j]
@@ -302,9 +298,6 @@ impl Op {
     pub fn idx(mut self, idx: Vec<usize>) -> Op {
         self.idx = idx;
         self
-    }
-    pub fn is_binary(&self) -> bool {
-        matches!(self.k, K::HStack | K::VStack | K::MatMul | K::Dot | K::ApproxEq | K::EqOp | K::EwMut | K::MaxDiff | K::CopyFrom | K::AB | K::VDot | K::VApproxEq | K::VEwMut | K::VCopyFrom)
     }
     /// The name of the library method the instance exercises (site keys use it).
     pub fn name(&self) -> &'static str {
